@@ -26,7 +26,7 @@ FAMS = ("qp", "qp_quartic", "rosenbrock", "exp_wall", "rastrigin", "styblinski_t
 
 def floors(tier):
     f = {"results_judged": 1500, "restart_results_judged": 500, "restart_below_checkpoint_nit": 100, "early_return_on_restart": 40,
-         "callable_stop_criteria_runs": 200, "runs_with_logger": 300, "runs_with_objective_redefined": 150, "objective_redefined_at_a_stationary_point_of_the_old_one": 60,
+         "callable_stop_criteria_runs": 200, "runs_with_logger": 300, "kept_results_audited_at_the_end": 1500, "restarts_with_analytic_gradient_from_a_finite_difference_checkpoint": 40, "runs_with_objective_redefined": 150, "objective_redefined_at_a_stationary_point_of_the_old_one": 60,
          "runs_on_domain_restricted_objective": 60, "__nontrivial__": 25}
     for k in MESSAGES:
         f["msg:" + k] = 5
@@ -55,12 +55,15 @@ def cases(tier, seed):
         }
         if rng.random() < 0.2:
             cfg["scaler"] = float(np.exp(rng.uniform(np.log(1e-2), np.log(1e2))))
+        if cfg["jac"] == "callable" and i % 4 == 1:
+            cfg["reuse_grad_buffer"] = True  # the user's gradient fills and returns one preallocated array; results are audited at the end
         if i % 3 == 2:
             cfg["logger"] = True  # a user-supplied logger at various verbosity levels
             cfg["iprint"] = int(gen.pick(rng, [-1, 0, 1, 50, 99, 101]))
         restarts = []
         for _ in range(int(rng.integers(1, 3))):
-            restarts.append({"dnit": int(rng.integers(-3, 3)), "raise_maxfun": bool(rng.random() < 0.5),
+            restarts.append({"dnit": int(rng.integers(-3, 3)), "raise_maxfun": bool(rng.random() < 0.5), "to_callable": bool(rng.random() < 0.6),
+                             "maxfun_slack": int(rng.integers(0, 4)),
                              "target_met": bool(rng.random() < 0.25), "maxls": int(gen.pick(rng, [1, 2, 5, 20])),
                              "cb": gen.pick(rng, [None, "never", 1])})
         yield {"problem": ps, "cfg": cfg, "restarts": restarts}
@@ -268,6 +271,7 @@ def run(spec):
     tr.gtol_calls = shared_g.calls if shared_g is not None else 0
     tr.ftarget_calls = shared_t.calls if shared_t is not None else 0
     tr.start_fun = f0
+    kept = [(f"{P.spec['family']} n={P.n} first run", tr, dict(cfg))]
     res = judge_result(out, P, tr, cfg, None, 1, f"{P.spec['family']} n={P.n} first run", dict(tags, restart=False))
     if res:
         keys.add(f"{res[0]}|{'+'.join(res[1])}|first")
@@ -284,6 +288,14 @@ def run(spec):
             c2["maxfun"] = int(ck.nfev) + int(cfg["maxfun"]) + 3
         c2["maxls"] = rs["maxls"]
         c2["cb"] = rs["cb"]
+        if c2["jac"] != "callable" and rs.get("to_callable"):
+            # the run is continued with the analytic gradient from a checkpoint produced with finite differences (nfev >> njev),
+            # the evaluation budget a few evaluations above what the checkpoint has used
+            c2["jac"] = "callable"
+            c2["maxfun"] = int(ck.nfev) + int(rs.get("maxfun_slack", 1))
+            c2["maxiter"] = int(ck.nit) + 5
+            c2["maxls"] = 20
+            out.count("restarts_with_analytic_gradient_from_a_finite_difference_checkpoint")
         if rs["target_met"] and np.isfinite(ck.fun):
             c2["ftarget"] = float(ck.fun) + 1.0
         nit0, n0 = int(ck.nit), int(ck.nfev)
@@ -312,8 +324,22 @@ def run(spec):
                            dict(tags, restart=True, early_return=bool(early), below_nit=bool(c2["maxiter"] < nit0)))
         if res:
             keys.add(f"{res[0]}|{'+'.join(res[1])}|restart|{'early' if early else 'run'}")
+        kept.append((f"{P.spec['family']} n={P.n} restart#{k}", tr2, dict(c2)))
         cur = tr2
         cfg = c2
+    # the results the caller kept are looked at again at the end: what they report must still be true of what they hold
+    for where_k, trk, cfgk in kept:
+        if trk.result is None or trk.snap is None:
+            continue
+        out.count("kept_results_audited_at_the_end")
+        now = probes.snap_state(trk.result)
+        bad = probes.diff_states(now, trk.snap)
+        if bad:
+            msgk = MSG_KEY.get(trk.snap["message"])
+            pgn = gen.pg_inf(np.asarray(now["x"], dtype=float), np.asarray(now["jac"], dtype=float), P.lb, P.ub)
+            out.violate("kept_result_changed", f"{where_k}: the returned result changed after it was returned (fields {bad}); it reports {trk.snap['message']!r} and the "
+                        f"projected gradient of the (x, jac) it now holds is {pgn!r} (gtol {cfgk['gtol']!r})", message=str(msgk), **tags)
+            break
     out.keys = keys
     out.nontrivial = bool(keys)
     out.sample = dict(spec=spec, ftarget=cfg.get("ftarget"), outcomes=sorted(keys))
